@@ -486,3 +486,50 @@ ENV_OBSERVATIONS = [
     ('print(__name__)', "under nextline the script's __name__ is 'nextline.spawned.plugin.plugins._script', executed directly it is "
                         "'__main__' (an `if __name__ == \"__main__\":` block does not run under nextline); documented in _script.py"),
 ]
+
+
+# Programs that END with an uncaught SyntaxError / IndentationError / TabError raised at RUN TIME by the user's code
+# (the statement itself is syntactically fine).  Executed directly the traceback starts in the user's code; under nextline
+# it must be the same frames.  Each body is emitted at top level, inside a function, and two calls deep.
+_RT_SYNTAX_BODIES = [
+    ('exec', "exec('x = = 1')"),
+    ('eval', "eval('1 +')"),
+    ('compile', "compile('def f(:\\n    pass\\n', '<user-source>', 'exec')"),
+    ('ast-parse', "__import__('ast').parse('x = = 1')"),
+    ('raise-syntax-error', "raise SyntaxError('made by the user')"),
+    ('raise-indentation-error', "raise IndentationError('made by the user')"),
+    ('raise-tab-error', "raise TabError('made by the user')"),
+    ('exec-indentation', "exec('if 1:\\nx = 1\\n')"),
+    ('exec-tabs', "exec('if 1:\\n\\tx = 1\\n        y = 2\\n')"),
+    ('import-bad-module', None),
+]
+_IMPORT_BAD = ["import os, sys, tempfile, importlib",
+               "d = tempfile.mkdtemp(prefix='verif_badmod_')",
+               "open(os.path.join(d, 'verif_bad_module.py'), 'w').write('x = = 1\\n')",
+               "sys.path.insert(0, d)",
+               "importlib.invalidate_caches()",
+               "try:",
+               "    import verif_bad_module",
+               "finally:",
+               "    sys.path.remove(d)",
+               "    os.remove(os.path.join(d, 'verif_bad_module.py'))",
+               "    os.rmdir(d)"]
+
+
+def _rt_syntax_programs() -> list:
+    out = []
+    for name, stmt in _RT_SYNTAX_BODIES:
+        body = _IMPORT_BAD if stmt is None else [stmt]
+        top = ["print('before')"] + body + ["print('not reached')"]
+        out.append((f'rt-syntax-{name}-top', '\n'.join(top) + '\n'))
+        fn = ["def f(a):", "    b = a + 1"] + ['    ' + l for l in body] + ["    return b", "print('before')", "r = f(1)", "print('not reached')"]
+        out.append((f'rt-syntax-{name}-function', '\n'.join(fn) + '\n'))
+        deep = ["def f(a):"] + ['    ' + l for l in body] + ["def g(a):", "    return f(a) + 1", "class K:", "    def m(self):", "        return g(2)",
+                                                              "print('before')", "r = K().m()"]
+        out.append((f'rt-syntax-{name}-nested', '\n'.join(deep) + '\n'))
+    # control: the same family, caught by the program (nothing escapes)
+    out.append(('rt-syntax-caught', "try:\n    exec('x = = 1')\nexcept SyntaxError as e:\n    print(type(e).__name__)\nprint('after')\n"))
+    return out
+
+
+RT_SYNTAX_PROGRAMS = _rt_syntax_programs()
